@@ -1,10 +1,33 @@
-"""C20: ordering — sync range partition (calcRangeHeight) + raft/solo bookkeeping."""
+"""C20: ordering — sync range partition (calcRangeHeight) + raft / solo delivery bookkeeping.
+
+ranges  : (fetch, begin, end) -> calcRangeHeight, judged by Model/Ranges.judge_ranges
+raft    : scripted histories against the real etcdraft.Node main loop over a scripted raft.Node
+          (entries incl. replays of executed blocks, gaps, duplicates, overlapping re-deliveries,
+          lagging / out-of-order reports, crashes at every point, leader changes, own proposals
+          that reach or do not reach the log), judged by Model/Order.judge_raft
+raftreal: the same node over its real etcd-raft instance (single member): what etcd-raft hands
+          out after a restart; translated to the same model ops and judged by judge_raft
+solo    : exported constructor + Prepare/Commit/ReportState (+ hook: proposal with a chosen
+          height), judged by Model/Order.judge_solo
+"""
+import glob
 import json
+import os
 import vlib
-from vlib import gN, glist, gopt
+from vlib import glist
 
 MAXU = 2**64 - 1
+ORDER_PRE = "From BX Require Import Base.Prelude Model.Order.\nLocal Open Scope N_scope."
 
+# defect flags of the model that are listed as OPEN findings (cfg_current); a fixed finding leaves this map
+FLAG_OF_FINDING = {
+    "C20-raft-replay-future-entry": "restart",
+    "C20-raft-snapshot-unexecuted": "snap",
+    "C20-solo-commit-every-10": "solo10",
+}
+
+
+# ------------------------------------------------------------------------------------------- ranges
 
 def gen_ranges(ctx, n):
     r = ctx.rng
@@ -20,19 +43,22 @@ def gen_ranges(ctx, n):
         b = r.choice([0, 1, r.randrange(0, 10**6), r.randrange(0, 2**40), 2**63, MAXU - 10**6])
         span = r.choice([0, 1, f, 2 * f + 1, r.randrange(0, 40 * max(f, 1) + 1)])
         e = b + span
-        if e + (f or 5) >= 2**64:
+        if e > MAXU:
             continue
-        cases.append(dict(fetch=f, begin=b, end=e))
+        if e + (f or 5) >= 2**64 and span > 400 * max(f, 1):
+            continue
+        cases.append(dict(fetch=f, begin=b, end=e, hostile=e + (f or 5) >= 2**64))
         if r.random() < 0.1 and b > 0:
             cases.append(dict(fetch=f, begin=b, end=r.randrange(0, b)))
     # the overflow corner: run in a child process under a deadline
-    for f, b, e in [(4, MAXU - 2, MAXU - 1), (5, MAXU - 3, MAXU), (1, MAXU, MAXU), (7, MAXU - 20, MAXU - 1)]:
+    for f, b, e in [(4, MAXU - 2, MAXU - 1), (5, MAXU - 3, MAXU), (1, MAXU, MAXU), (7, MAXU - 20, MAXU - 1),
+                    (1, MAXU - 3, MAXU), (3, MAXU - 7, MAXU), (2**63, 5, MAXU), (MAXU, 0, MAXU), (MAXU, MAXU, MAXU),
+                    (2**32, 2**64 - 2**33, MAXU - 1), (5, 0, 3), (6, MAXU - 12, MAXU - 6)]:
         cases.append(dict(fetch=f, begin=b, end=e, hostile=True))
     return cases
 
 
 def judge_ranges(ctx, cases, outs):
-    """returns list of (case, out, verdict)"""
     rows = []
     for c, o in zip(cases, outs):
         f = c["fetch"] or 5     # New(): blockFetch 0 means the default 5
@@ -53,49 +79,602 @@ def judge_ranges(ctx, cases, outs):
     return vs
 
 
-def run(ctx):
-    ctx.proofs(["Proofs/RangesProofs"], model_targets=["Ranges"])
+def run_ranges(ctx, known):
     exe, err = vlib.build_harness("ranges")
     if exe is None:
-        ctx.broken("harness-build", err)
-        return ctx.finish(rule="-")
-    known = {f["id"]: f for f in vlib.known_findings() if f["property"] == "C20"}
-    if ctx.model_ok:
-        cases = gen_ranges(ctx, 300 if ctx.quick else 20000)
-        rc, outs, e = vlib.run_driver(exe, "ranges", cases)
-        if rc != 0 or len(outs) != len(cases):
-            ctx.broken("driver:ranges", e[-1500:])
+        ctx.broken("harness-build:ranges", err)
+        return
+    cases = gen_ranges(ctx, 300 if ctx.quick else 20000)
+    rc, outs, e = vlib.run_driver(exe, "ranges", cases)
+    if rc != 0 or len(outs) != len(cases):
+        ctx.broken("driver:ranges", e[-1500:])
+        return
+    vs = judge_ranges(ctx, cases, outs)
+    if vs is None:
+        return
+    kinds = {}
+    for c, o, v in zip(cases, outs, vs):
+        nontriv = (not o.get("err")) and not o.get("hang") and len(o.get("ranges") or []) >= 2
+        ctx.count(case_key=("r", c["fetch"], c["begin"], c["end"]), nontrivial=nontriv,
+                  sample=dict(driver="ranges", input=c, impl=o, verdict=v))
+        ctx.traces_validated += 1
+        k = "hang" if o.get("hang") else "err" if o["err"] else "ranges%d" % min(len(o["ranges"] or []), 9)
+        if c["end"] + (c["fetch"] or 5) >= 2**64:
+            k = "near2^64:" + k
+        kinds[k] = kinds.get(k, 0) + 1
+        overflow = c["end"] + (c["fetch"] or 5) >= 2**64
+        rep = dict(property="C20", driver="ranges", input=c, impl=o, verdict=v)
+        if v[0] == 0:
+            continue
+        if overflow and "C20-ranges-overflow" in known and (o.get("hang") or v[0] in (2, 3)):
+            ctx.known("C20-ranges-overflow", known["C20-ranges-overflow"]["what"])
+        elif o.get("hang") or v[0] == 3:
+            ctx.violation("calcRangeHeight does not terminate", rep)
+        elif v[0] == 2:
+            ctx.violation("ranges do not partition [begin,end]", rep)
         else:
-            vs = judge_ranges(ctx, cases, outs)
-            if vs is not None:
-                kinds = {}
-                for c, o, v in zip(cases, outs, vs):
-                    nontriv = (not o.get("err")) and not o.get("hang") and len(o.get("ranges") or []) >= 2
-                    ctx.count(case_key=("r", c["fetch"], c["begin"], c["end"]), nontrivial=nontriv,
-                              sample=dict(driver="ranges", input=c, impl=o, verdict=v))
-                    ctx.traces_validated += 1
-                    k = "hang" if o.get("hang") else "err" if o["err"] else "ranges%d" % min(len(o["ranges"] or []), 9)
-                    kinds[k] = kinds.get(k, 0) + 1
-                    overflow = c["end"] + (c["fetch"] or 5) >= 2**64
-                    rep = dict(property="C20", driver="ranges", input=c, impl=o, verdict=v)
-                    if v[0] == 0:
-                        continue
-                    if overflow and "C20-ranges-overflow" in known and (o.get("hang") or v[0] in (2, 3)):
-                        ctx.known("C20-ranges-overflow", known["C20-ranges-overflow"]["what"])
-                    elif o.get("hang") or v[0] == 3:
-                        ctx.violation("calcRangeHeight does not terminate", rep)
-                    elif v[0] == 2:
-                        ctx.violation("ranges do not partition [begin,end]", rep)
-                    else:
-                        # model and implementation differ but the implementation's answer still satisfies the property
-                        ctx.broken("correspondence:judge_ranges", "first differing case: " + json.dumps(rep))
-                ctx.extra["ranges_distribution"] = kinds
+            # model and implementation differ but the implementation's answer still satisfies the property
+            ctx.broken("correspondence:judge_ranges", "first differing case: " + json.dumps(rep))
+    ctx.extra["ranges_distribution"] = kinds
+
+
+# ------------------------------------------------------------------------------------------- raft histories
+
+def gen_raft(r, style=None, maxops=30):
+    """one scripted history.  The generator keeps a rough picture (next height a well-behaved leader
+    would propose) only to make most entries useful; the verdict never depends on it."""
+    style = style or r.choice(["plain", "plain", "replay", "gap", "crash", "crash", "leader", "snap", "mixed", "mixed"])
+    init = r.choice([0, 1, 1, 1, 3, 7, 10])
+    snap = r.choice([2, 3, 4, 6]) if style in ("snap",) or (style == "mixed" and r.random() < 0.4) else 1000
+    h = dict(kind="raft", init=init, snap=snap, batch=1, id=1, style=style, ops=[])
+    ops = h["ops"]
+    nh = init + 1            # next fresh height
+    ntx = [1]                # fresh account counter -> tx id acct*100
+    remote = []              # tx ids handed to this node's pool as a follower and not yet put into a scripted entry
+    leader_self = False
+    pending = 0
+
+    def fresh():
+        ntx[0] += 1
+        return ntx[0] * 100
+
+    def entry():
+        nonlocal nh
+        k = r.random()
+        if k < 0.08:
+            return ["ent", 0, 0, []]
+        txs = [fresh() for _ in range(r.choice([0, 1, 1, 2, 3]))]
+        if remote and r.random() < 0.6:
+            txs.append(remote.pop(0))
+        if style in ("replay", "mixed", "crash") and k < 0.25 and nh > init + 1:
+            return ["ent", 1, r.randrange(max(init, nh - 4), nh), txs]       # stale height (replay / old leader)
+        if style in ("gap", "mixed") and k < (0.35 if style == "gap" else 0.14):
+            return ["ent", 1, nh + r.choice([1, 1, 2, 3]), txs]              # a batch from the future
+        e = ["ent", 1, nh, txs]
+        nh += 1
+        return e
+
+    n = r.randrange(8, maxops + 1)
+    if style == "leader" or (style == "mixed" and r.random() < 0.5):
+        ops.append(["ready", 0, 0, 0, r.choice([2, 3])])
+        leader_self = ops[-1][4] == 2
+    while len(ops) < n:
+        k = r.random()
+        if k < 0.30:
+            for _ in range(r.choice([1, 1, 2, 3])):
+                ops.append(entry())
+        elif k < 0.58:
+            lead = 0
+            if style in ("leader", "mixed") and r.random() < 0.3:
+                lead = r.choice([1, 2, 2, 3, 3])
+                leader_self = lead == 2
+            ops.append(["ready", r.choice([0, 0, 0, 0, 1, 2, 5]), r.choice([0, 1, 1, 2, 3, 10]), r.choice([0, 0, 0, 1, 3]), lead])
+        elif k < 0.72:
+            for _ in range(r.choice([1, 1, 2, 4])):
+                ops.append(["exec"])
+        elif k < 0.82:
+            ops.append(["report", r.choice([0, 0, 0, 1, 1, 2, 3])])
+        elif k < 0.90 and style in ("crash", "replay", "gap", "snap", "mixed", "leader"):
+            ops.append(["crash"])
+            leader_self = False
+        elif style in ("leader", "mixed", "plain"):
+            t = fresh()
+            local = 1 if r.random() < 0.6 else 0
+            ops.append(["tx", t, local])
+            if not leader_self and local == 0:
+                remote.append(t)
+            if leader_self:
+                pending += 1
+            if pending and r.random() < 0.8:
+                ops.append([r.choice(["entp", "entp", "entp", "dropp"])])
+                pending -= 1
+                if ops[-1][0] == "entp":
+                    nh += 1
+    return h
+
+
+def gdef(d):
+    return "{| d_restart_height_only := %s; d_snap_unexecuted := %s; d_solo_commit10 := %s |}" % tuple(
+        "true" if d.get(k) else "false" for k in ("restart", "snap", "solo10"))
+
+
+def gblk(b):
+    return "(%d, %s)" % (b["h"], glist(b["txs"]))
+
+
+def gobs(st):
+    return "{| b_ev := %s; b_prop := %s; b_st := %s; b_bai := %s |}" % (
+        glist(st["ev"], gblk), glist([p["h"] for p in (st.get("prop") or [])]), glist(st["st"]),
+        glist(st.get("bai") or [], lambda p: "(%d, %d)" % (p[0], p[1])))
+
+
+def raft_resolve(h, t):
+    """-> (log as python list of (kind,h,txs), model ops as strings, observations) from a history and its trace"""
+    log, ops = [], []
+    steps = t["steps"]
+    for op, st in zip(h["ops"], steps[1:]):
+        name = op[0]
+        if name in ("ent", "entp"):
+            if st.get("ent") is not None:
+                e = st["ent"]
+                log.append((st["r"][0], e["h"], e["txs"], name))
+                ops.append("OAppend")
+            else:
+                ops.append("ONop")
+        elif name == "dropp":
+            ops.append("ONop")
+        elif name == "ready":
+            lo, hi, app = st["r"][:3]
+            ops.append("OReady %d %d %d %s" % (lo, hi, app, "None" if op[4] == 0 else "(Some %d)" % (op[4] - 1)))
+        elif name == "exec":
+            ops.append("OExec")
+        elif name == "report":
+            ops.append("OReport %d" % st["r"][0])
+        elif name == "crash":
+            ops.append("OCrash")
+        elif name == "tx":
+            ops.append("OPropose %d" % len(st.get("prop") or []))
+        else:
+            raise ValueError(name)
+    return log, ops, steps[:len(ops) + 1]
+
+
+def raft_row(h, t, flags):
+    log, ops, obs = raft_resolve(h, t)
+    cfg = "{| c_id := %d; c_snap := %d; c_init := %d |}" % (h.get("id") or 1, h.get("snap") or 1000, h["init"])
+    glog = glist(["EBatch %d %s" % (e[1], glist(e[2])) if e[0] == 1 else "EEmpty" for e in log])
+    return "(%s, %s, %s, %s, %s)" % (gdef(flags), cfg, glog, glist(ops), glist(obs, gobs))
+
+
+def real_to_model(h, t):
+    """raftreal: rebuild the shared log and the Ready ops from what the real etcd-raft instance did"""
+    steps = t["steps"]
+    log = {}          # index -> (kind, h)
+    txs_of = {}
+
+    def absorb(flat):
+        for i in range(0, len(flat), 3):
+            log.setdefault(flat[i], (flat[i + 1], flat[i + 2]))
+    # proposals carry their txs; the log view only has heights: recover txs from the ops in order of first appearance
+    prop_txs = {}
+    ops, obs = [], []
+    init_obs = dict(ev=[], st=[h["init"], 0, 0, 0, 0, 0, h["init"], 0], bai=[[h["init"], 0]])
+    avail = 0
+    last_applied = 0
+
+    def catch_up(st, lead_known, after_crash_from=None):
+        nonlocal avail, last_applied
+        ram_last = st["st"][7]
+        out = []
+        while avail < ram_last:
+            out.append("OAppend")
+            avail += 1
+        lo = (after_crash_from if after_crash_from is not None else last_applied) + 1
+        out.append("OReady %d %d %d %s" % (min(lo, st["st"][1] + 1), st["st"][1], ram_last, "(Some %d)" % st["st"][5]))
+        last_applied = st["st"][1]
+        return out
+    absorb(steps[0]["r"])
+    first = catch_up(steps[0], True)
+    ops += first
+    obs += [None] * (len(first) - 1) + [steps[0]]
+    prev_snap = steps[0]["st"][2]
+    for op, st in zip(h["ops"], steps[1:]):
+        r = st.get("r") or []
+        cut = r.index(77777)
+        absorb(r[cut + 1:])
+        name = op[0]
+        if name == "propose":
+            prop_txs.setdefault((op[1], st["st"][7]), op[2])
+            seq = catch_up(st, True)
+            # remember the txs of the entry this proposal produced (the last batch index)
+            for idx in sorted(log):
+                if log[idx][0] == 1 and idx not in txs_of and log[idx][1] == op[1] and idx == st["st"][7]:
+                    txs_of[idx] = op[2]
+            ops += seq
+            obs += [None] * (len(seq) - 1) + [st]
+        elif name == "exec":
+            ops.append("OExec"); obs.append(st)
+        elif name == "report":
+            ops.append("OReport %d" % r[0]); obs.append(st)
+        elif name == "crash":
+            seq = ["OCrash"] + catch_up(st, True, after_crash_from=prev_snap)
+            ops += seq
+            obs += [None] * (len(seq) - 1) + [st]
+        elif name == "wait":
+            seq = catch_up(st, True)
+            ops += seq
+            obs += [None] * (len(seq) - 1) + [st]
+        prev_snap = st["st"][2]
+    glog = []
+    for idx in range(1, (max(log) if log else 0) + 1):
+        k, hh = log.get(idx, (0, 0))
+        glog.append("EBatch %d %s" % (hh, glist(txs_of.get(idx, []))) if k == 1 else "EEmpty")
+    return glog, ops, [init_obs] + obs
+
+
+def gen_real(r):
+    init = r.choice([1, 1, 4])
+    h = dict(kind="raftreal", init=init, snap=r.choice([1000, 1000, 3, 5]), batch=1, id=1, ops=[])
+    nh, ntx = init + 1, 50
+    for _ in range(r.randrange(6, 16)):
+        k = r.random()
+        if k < 0.45:
+            ntx += 1
+            hh = nh if r.random() < 0.75 else r.choice([max(init, nh - 1), nh + 1])
+            h["ops"].append(["propose", hh, [ntx * 100]])
+            if hh == nh:
+                nh += 1
+        elif k < 0.7:
+            h["ops"].append(["exec"])
+        elif k < 0.85:
+            h["ops"].append(["report", r.choice([0, 0, 1, 2])])
+        else:
+            h["ops"].append(["crash"])
+    return h
+
+
+# ------------------------------------------------------------------------------------------- solo histories
+
+def gen_solo(r, maxops=24):
+    """the generator mirrors the node just enough to know when a commit event is to be waited for"""
+    init = r.choice([0, 1, 1, 5, 8, 9, 18])
+    h = dict(kind="solo", init=init, batch=1, ops=[])
+    ops = h["ops"]
+    last, chain, queue, dead, stuck, ntx, seen = init, init, [], False, False, 1, []
+    style = r.choice(["plain", "plain", "plain", "mismatch", "mismatch", "crash"])
+    h["style"] = style
+    n = r.randrange(6, maxops + 1)
+    while len(ops) < n:
+        k = r.random()
+        if k < 0.45:
+            if seen and r.random() < 0.1:
+                ops.append(["tx", r.choice(seen), 0])
+                continue
+            ntx += 1
+            t = ntx * 100
+            ops.append(["tx", t, 1 if (not dead and not stuck) else 0])
+            if not stuck:
+                seen.append(t)
+                if dead:
+                    stuck = True
+                else:
+                    last += 1
+                    queue.append(last)
+        elif k < 0.65:
+            ops.append(["exec"])
+            if queue:
+                chain = queue.pop(0)
+        elif k < 0.82:
+            ops.append(["report", r.choice([0, 0, 0, 1, 2])])
+        elif k < 0.90 and style in ("crash", "mismatch"):
+            ops.append(["crash"])
+            last, queue, dead, stuck, seen = chain, [], False, False, []
+        elif style == "mismatch":
+            ntx += 1
+            hh = max(0, last + r.choice([1, 1, 1, 0, 2, 5]))
+            ops.append(["prop", hh, [ntx * 100]])
+            if not dead:
+                if hh == last + 1:
+                    last += 1
+                    queue.append(last)
+                else:
+                    dead = True
+    return h
+
+
+def solo_row(h, t, flags):
+    ops = []
+    steps = t["steps"]
+    for op, st in zip(h["ops"], steps[1:]):
+        name = op[0]
+        if name == "tx":
+            ops.append("STx %d" % op[1])
+        elif name == "prop":
+            ops.append("SInject %d %s" % (op[1], glist(op[2])))
+        elif name == "exec":
+            ops.append("SExec")
+        elif name == "report":
+            ops.append("SReport %d" % st["r"][0])
+        elif name == "crash":
+            ops.append("SCrash")
+
+    def so(st, op=None):
+        r = st.get("r") or []
+        code = 0
+        if op is not None and op[0] == "prop" and r[:1] == [2]:
+            code = 2
+        if op is not None and op[0] == "report" and len(r) > 1:
+            code = r[1]
+        return "{| so_ev := %s; so_st := %s; so_r := %d |}" % (glist(st["ev"], gblk), glist(st["st"]), code)
+    obs = [so(steps[0])] + [so(st, op) for op, st in zip(h["ops"], steps[1:])]
+    return "(%s, %d, %s, %s)" % (gdef(flags), h["init"], glist(ops), glist(obs))
+
+
+# ------------------------------------------------------------------------------------------- deciding
+
+def log_has_future_entry(h, t):
+    """python mirror of ~nogap: some entry's height is above canonical height + 1 at its position"""
+    log, _, _ = raft_resolve(h, t)
+    c = h["init"]
+    for kind, hh, _, _ in log:
+        if kind != 1:
+            continue
+        if hh > c + 1:
+            return True
+        if hh == c + 1:
+            c = hh
+    return False
+
+
+def own_reproposal(h, t):
+    """a transaction is in two delivered blocks and the later block's entry is this node's own proposal"""
+    log, _, _ = raft_resolve(h, t)
+    own = set()
+    for kind, hh, txs, origin in log:
+        if origin == "entp":
+            own.add((hh, tuple(txs)))
+    seen = {}
+    for st in t["steps"]:
+        for b in st["ev"]:
+            for x in b["txs"]:
+                if x in seen and seen[x] != b["h"]:
+                    if (b["h"], tuple(b["txs"])) in own:
+                        return True
+                seen.setdefault(x, b["h"])
+    return False
+
+
+def order_flags(known):
+    return {flag: (fid in known) for fid, flag in FLAG_OF_FINDING.items()}
+
+
+def decide_raft(ctx, known, h, t, v):
+    """returns None when fine, else ('known', id) or ('violation', text) or ('broken', text)"""
+    if v[0] == 0:
+        return None
+    if v[0] == 2:
+        p, bits = v[1] % 10, v[1] // 10
+        has_crash = any(op[0] == "crash" for op in h["ops"])
+        if p in (2, 3) and bits in (1, 3) and has_crash and log_has_future_entry(h, t) and "C20-raft-replay-future-entry" in known:
+            return ("known", "C20-raft-replay-future-entry")
+        if p == 4 and bits in (2, 3) and has_crash and "C20-raft-snapshot-unexecuted" in known:
+            return ("known", "C20-raft-snapshot-unexecuted")
+        if p == 5 and bits != 9 and own_reproposal(h, t) and "C20-raft-new-leader-rebatches-delivered-tx" in known:
+            return ("known", "C20-raft-new-leader-rebatches-delivered-tx")
+        what = {1: "heights handed to the executor are not lastExec+1, +2, ...", 2: "a delivered block is not the block of the log's canonical chain at its height (replicas diverge)",
+                3: "the executed blocks are not a prefix of the log's canonical chain", 4: "an entry of a block that was never executed was skipped (applied index ahead of lastExec)",
+                5: "a transaction is in two delivered blocks"}.get(p, "property predicate %d" % p)
+        return ("violation", what)
+    if v[0] == 1:
+        return ("broken", "model and implementation differ at step %d (property predicates hold on the implementation's trace)" % v[1])
+    return ("broken", "history outside the model's domain (generator / driver bug)")
+
+
+def decide_solo(ctx, known, h, t, v):
+    if v[0] == 0:
+        return None
+    if v[0] == 2:
+        if v[1] == 6 and "C20-solo-commit-every-10" in known:
+            return ("known", "C20-solo-commit-every-10")
+        what = {1: "solo: heights handed to the executor are not lastExec+1, +2, ...", 5: "solo: a transaction is in two delivered blocks",
+                6: "solo: a reported block's transactions stay in the pool"}.get(v[1], "solo predicate %d" % v[1])
+        return ("violation", what)
+    if v[0] == 1:
+        return ("broken", "solo model and implementation differ at step %d" % v[1])
+    return ("broken", "solo history outside the model's domain")
+
+
+def run_order_batch(exe, hs):
+    rc, outs, e = vlib.run_driver(exe, "order", hs, timeout=1800)
+    if rc != 0 or len(outs) != len(hs):
+        return None, "driver rc=%s outs=%d/%d %s" % (rc, len(outs), len(hs), e[-1200:])
+    return outs, ""
+
+
+def judge_order(hs, outs, flags):
+    """-> verdict list aligned with hs (None entries for histories whose driver run failed)"""
+    rows_r, idx_r, rows_s, idx_s = [], [], [], []
+    vs = [None] * len(hs)
+    for i, (h, t) in enumerate(zip(hs, outs)):
+        if t.get("err") or not t.get("steps"):
+            vs[i] = (9, 0)
+            continue
+        if h["kind"] == "raft":
+            rows_r.append(raft_row(h, t, flags)); idx_r.append(i)
+        elif h["kind"] == "raftreal":
+            try:
+                glog, ops, obs = real_to_model(h, t)
+            except Exception:
+                vs[i] = (9, 1)
+                continue
+            # unobserved intermediate steps: fill with a copy of the model's own view is impossible here,
+            # so only the last op of each group is compared: the row keeps ops grouped via ONop-free prefixes
+            rows_r.append(real_row(h, glog, ops, obs, flags)); idx_r.append(i)
+        else:
+            rows_s.append(solo_row(h, t, flags)); idx_s.append(i)
+    if rows_r:
+        res, msg = vlib.coq_judge_sharded("C20_raft", ORDER_PRE, "raft_case", "judge_raft", rows_r, shard=150)
+        if res is None:
+            return None, msg
+        for i, v in zip(idx_r, res):
+            vs[i] = v
+    if rows_s:
+        res, msg = vlib.coq_judge_sharded("C20_solo", ORDER_PRE, "solo_case", "judge_solo", rows_s, shard=300)
+        if res is None:
+            return None, msg
+        for i, v in zip(idx_s, res):
+            vs[i] = v
+    return vs, ""
+
+
+def real_row(h, glog, ops, obs, flags):
+    cfg = "{| c_id := 1; c_snap := %d; c_init := %d |}" % (h.get("snap") or 1000, h["init"])
+    # observations that the driver could not take (ops synthesised inside one driver step) are marked
+    # with an empty state vector; the judge for real mode skips them
+    def g(o):
+        if o is None:
+            return "{| b_ev := []; b_prop := []; b_st := []; b_bai := [] |}"
+        return gobs(o)
+    return "(%s, %s, %s, %s, %s)" % (gdef(flags), cfg, glist(glog), glist(ops), glist(obs, g))
+
+
+def shrink(exe, h, flags, same, rounds=12):
+    """greedy one-op-at-a-time removal keeping the verdict class; `same(v)` says whether a verdict is the one we chase"""
+    cur = h
+    for _ in range(rounds):
+        cands = []
+        for i in range(len(cur["ops"]) - 1, -1, -1):
+            c = dict(cur)
+            c["ops"] = cur["ops"][:i] + cur["ops"][i + 1:]
+            cands.append(c)
+        if not cands:
+            break
+        outs, msg = run_order_batch(exe, cands)
+        if outs is None:
+            break
+        vs, msg = judge_order(cands, outs, flags)
+        if vs is None:
+            break
+        hit = [c for c, v in zip(cands, vs) if v is not None and same(v)]
+        if not hit:
+            break
+        cur = hit[0]
+    return cur
+
+
+def run_order(ctx, known):
+    exe, err = vlib.build_harness("order")
+    if exe is None:
+        ctx.broken("harness-build:order", err)
+        return
+    flags = order_flags(known)
+    hs = []
+    for f in sorted(glob.glob(os.path.join(vlib.CORPUS, "C20_*.json"))):
+        try:
+            obj = json.load(open(f))
+        except ValueError:
+            continue
+        for hh in (obj if isinstance(obj, list) else [obj]):
+            if isinstance(hh, dict) and hh.get("kind") in ("raft", "solo", "raftreal"):
+                hh = dict(hh); hh["corpus"] = os.path.basename(f)
+                hs.append(hh)
+    n_corpus = len(hs)
+    r = ctx.rng
+    n_raft, n_solo, n_real = (260, 70, 10) if ctx.quick else (6000, 1200, 120)
+    hs += [gen_raft(r) for _ in range(n_raft)]
+    hs += [gen_solo(r) for _ in range(n_solo)]
+    hs += [gen_real(r) for _ in range(n_real)]
+    outs, msg = run_order_batch(exe, hs)
+    if outs is None:
+        ctx.broken("driver:order", msg)
+        return
+    vs, msg = judge_order(hs, outs, flags)
+    if vs is None:
+        ctx.broken("correspondence:judge_order", msg)
+        return
+    dist = {}
+    reported = set()
+    for i, (h, t, v) in enumerate(zip(hs, outs, vs)):
+        kind = h["kind"]
+        nev = sum(len(s["ev"]) for s in t.get("steps", []))
+        ncrash = sum(1 for op in h["ops"] if op[0] == "crash")
+        skipped = kind == "raft" and any(s.get("r") and len(s["r"]) == 3 and s["r"][1] >= s["r"][0] for s in t.get("steps", [])) and \
+            nev < sum(1 for s in t.get("steps", []) if s.get("ent") is not None)
+        nontriv = nev >= 2 and (ncrash >= 1 or skipped or kind != "raft")
+        ctx.count(case_key=(kind, json.dumps(h["ops"]), h["init"], h.get("snap")), nontrivial=nontriv,
+                  sample=dict(driver=kind, history=h, verdict=v) if i < 2 or (kind == "solo" and dist.get("solo", 0) < 1) else None)
+        ctx.traces_validated += 1
+        dist[kind] = dist.get(kind, 0) + 1
+        for op in h["ops"]:
+            dist["op:" + kind + ":" + op[0]] = dist.get("op:" + kind + ":" + op[0], 0) + 1
+        dist["events:" + kind] = dist.get("events:" + kind, 0) + nev
+        if kind == "raft":
+            dist["style:" + h.get("style", "corpus")] = dist.get("style:" + h.get("style", "corpus"), 0) + 1
+        if v == (9, 0) or v == (9, 1):
+            ctx.broken("driver:order", "history %d (%s): %s" % (i, kind, t.get("err") or "trace not translatable"))
+            continue
+        d = decide_solo(ctx, known, h, t, v) if kind == "solo" else decide_raft(ctx, known, h, t, v)
+        if d is None:
+            continue
+        dist["verdict:%d:%d" % v] = dist.get("verdict:%d:%d" % v, 0) + 1
+        if d[0] == "known":
+            ctx.known(d[1], known[d[1]]["what"])
+            continue
+        key = (d[0], d[1], kind)
+        if key in reported:
+            continue
+        reported.add(key)
+        small = h
+        if kind in ("raft", "solo") and len(reported) <= 3:
+            small = shrink(exe, h, flags, lambda w, v=v: w[0] == v[0] and (v[0] != 2 or w[1] % 10 == v[1] % 10))
+        o2, _ = run_order_batch(exe, [small])
+        v2, _ = judge_order([small], o2, flags) if o2 else (None, "")
+        rep = dict(property="C20", driver="order", history=small, impl=o2[0] if o2 else None, verdict=v2[0] if v2 else v,
+                   original_verdict=v, what=d[1])
+        if d[0] == "violation":
+            ctx.violation(d[1], rep)
+        else:
+            ctx.broken("correspondence:judge_%s" % kind, d[1] + " :: " + json.dumps(small)[:1500])
+            ctx.extra.setdefault("mismatch_replays", []).append(rep)
+    dist["corpus"] = n_corpus
+    ctx.extra["order_distribution"] = dist
+
+
+# ------------------------------------------------------------------------------------------- entry points
+
+def run(ctx):
+    ctx.proofs(["Proofs/RangesProofs", "Proofs/OrderProofs"], model_targets=["Ranges", "Order"])
+    known = {f["id"]: f for f in vlib.known_findings() if f["property"] == "C20" and f.get("status") == "open"}
+    if ctx.model_ok:
+        run_ranges(ctx, known)
+        run_order(ctx, known)
     return ctx.finish(rule="ranges: grid over (fetch,begin,end) + random spans incl. values near 2^63/2^64 + overflow corner in a child process; "
-                           "non-trivial = at least two ranges returned, distinct by input triple")
+                           "non-trivial = at least two ranges returned, distinct by input triple.  order: corpus + seeded scripted histories "
+                           "(raft: log entries incl. stale/future heights and empties, Ready with overlap and in-flight entries, exec, lagging reports, "
+                           "crashes, leader changes, own proposals appended or dropped; solo: transactions, injected proposals with right/wrong height, "
+                           "exec, report, crash; raftreal: proposals/exec/report/crash over the real etcd-raft instance); non-trivial = at least two "
+                           "commit events and (raft) a crash or a skipped entry, distinct by op list")
 
 
 def replay(ctx, path):
     obj = json.load(open(path))
+    known = {f["id"]: f for f in vlib.known_findings() if f["property"] == "C20" and f.get("status") == "open"}
+    if obj.get("driver") == "order" or "history" in obj:
+        exe, err = vlib.build_harness("order")
+        if exe is None:
+            print(err)
+            return 1
+        h = obj["history"]
+        outs, msg = run_order_batch(exe, [h])
+        if outs is None:
+            print(msg)
+            return 1
+        vs, msg = judge_order([h], outs, order_flags(known))
+        print(json.dumps(dict(history=h, impl=outs[0], verdict=vs[0] if vs else msg)))
+        return 0 if vs and vs[0][0] == 0 else 1
+    if "input" not in obj:
+        print(json.dumps(obj))
+        return 1
     exe, err = vlib.build_harness("ranges")
     c = obj["input"]
     rc, outs, e = vlib.run_driver(exe, "ranges", [c])
